@@ -359,3 +359,44 @@ Theorem C12_multi_model_passes : forall e ss sids h,
   C12Multi.ok_multi e ss sids h (C12Multi.mobserve e ss sids h) = true.
 Proof. exact C12MultiProofs.multi_model_passes. Qed.
 Print Assumptions C12_multi_model_passes.
+
+(* ---- The session's effects on the stream registry ------------------------------------------------
+   [eff_run e n s 0 0 qs] gives, after every request, the number of streams the session has created so
+   far ([ERegister] effects), how many of them are still live (minus [ERelease (HPub _)]) and the
+   consumers on them; the harness reports the same from media's registry. *)
+From V Require C12Effects C12EffectsProofs.
+
+(* a repeated RECORD in the recording state is answered 200 and is a no-op on the session and the registry;
+   so is everything else but TEARDOWN (repeated PLAY, ANNOUNCE, SETUP after RECORD, ...) *)
+Theorem C12_repeated_record_is_noop : forall e s q,
+  s_closed s = false -> s_status s = SRecording -> q_meth q = MRecord ->
+  step e s q = (s, [resp 200 q], []).
+Proof. exact C12EffectsProofs.repeated_record_is_noop. Qed.
+Print Assumptions C12_repeated_record_is_noop.
+
+Theorem C12_recording_is_stable : forall e s q,
+  s_closed s = false -> s_status s = SRecording -> q_meth q <> MTeardown ->
+  exists c, step e s q = (s, [resp c q], []).
+Proof. exact C12EffectsProofs.recording_is_stable. Qed.
+Print Assumptions C12_recording_is_stable.
+
+(* at every point of every history a session has created at most one stream, and what is live is among
+   what it created *)
+Theorem C12_session_owns_at_most_one_stream : forall e n ws wp qs o,
+  In o (fst (C12Effects.eff_run e n (init_sess ws wp) 0 0 qs)) ->
+  fst (fst o) <= 1 /\ 0 <= snd (fst o) <= fst (fst o).
+Proof. exact C12EffectsProofs.session_owns_at_most_one_stream. Qed.
+Print Assumptions C12_session_owns_at_most_one_stream.
+
+(* TEARDOWN or disconnect releases ALL streams the session's history created (the oracle [ok_effects]
+   demands: live streams 0 after the disconnect, no consumer left on them, every attached consumer
+   released), and the oracle accepts the model on every history *)
+Theorem C12_effects_model_passes : forall e n ws wp qs,
+  let r := C12Effects.eff_run e n (init_sess ws wp) 0 0 qs in
+  let created := snd (fst (snd r)) in
+  C12Effects.ok_effects e n (init_sess ws wp) qs (fst r)
+    {| C12Effects.ef_live := 0; C12Effects.ef_cons := 0;
+       C12Effects.ef_attached := (if 0 <? created then n else 0);
+       C12Effects.ef_released := (if 0 <? created then n else 0) |} = true.
+Proof. exact C12EffectsProofs.effects_model_passes. Qed.
+Print Assumptions C12_effects_model_passes.
